@@ -56,6 +56,12 @@ type pipeRig struct {
 }
 
 func newPipeRig(c *pipeCfg, n int) *pipeRig {
+	return newPipeRigLim(c, fmt.Sprintf("c12_%s_%d", c.decName, n), c.cutoff, c.cutoff > 0, "cutoff")
+}
+
+// newPipeRigLim builds the pipeline of c with the given size gate settings
+// (max_event_size, cut_off_event_by_limit, cut_off_event_by_limit_field).
+func newPipeRigLim(c *pipeCfg, name string, maxEventSize int, cutOff bool, marker string) *pipeRig {
 	settings := &pipeline.Settings{
 		Decoder:             c.decName,
 		DecoderParams:       c.params,
@@ -69,12 +75,12 @@ func newPipeRig(c *pipeCfg, n int) *pipeRig {
 		Pool:                c.pool,
 		Metric:              &pipeline.MetricSettings{HoldDuration: pipeline.DefaultMetricHoldDuration, MaxLabelValueLength: pipeline.DefaultMetricMaxLabelValueLength},
 	}
-	if c.cutoff > 0 {
-		settings.MaxEventSize = c.cutoff
-		settings.CutOffEventByLimit = true
-		settings.CutOffEventByLimitField = "cutoff"
+	settings.MaxEventSize = maxEventSize
+	settings.CutOffEventByLimit = cutOff
+	if cutOff {
+		settings.CutOffEventByLimitField = marker
 	}
-	p := pipeline.New(fmt.Sprintf("c12_%s_%d", c.decName, n), settings, prometheus.NewRegistry(), zap.NewNop())
+	p := pipeline.New(name, settings, prometheus.NewRegistry(), zap.NewNop())
 	anyIn, _ := fake.Factory()
 	p.SetInput(&pipeline.InputPluginInfo{
 		PluginStaticInfo:  &pipeline.PluginStaticInfo{Type: "fake"},
@@ -120,15 +126,26 @@ type directResult struct {
 
 // direct computes what the documented decoder API makes of the line.
 func direct(c *pipeCfg, dec decoder.Decoder, root *insaneJSON.Root, line []byte) (res directResult) {
+	return directLim(c, dec, root, line, c.cutoff, c.cutoff > 0)
+}
+
+// directLim: the same under max_event_size / cut_off_event_by_limit as the
+// pipeline readme documents them: a line longer than the limit is discarded,
+// or (cut-off on) only its first max_event_size bytes are passed further.
+func directLim(c *pipeCfg, dec decoder.Decoder, root *insaneJSON.Root, line []byte, maxEventSize int, cutOff bool) (res directResult) {
 	defer func() {
 		if v := recover(); v != nil {
 			res.panicked = true
 		}
 	}()
 	data := append([]byte(nil), line...)
-	if c.cutoff > 0 && len(data) > c.cutoff {
+	if maxEventSize > 0 && len(data) > maxEventSize {
+		if !cutOff {
+			res.err = errOversized
+			return res
+		}
 		nl := data[len(data)-1] == '\n'
-		data = data[:c.cutoff]
+		data = data[:maxEventSize]
 		if nl {
 			data = append(data, '\n')
 		}
@@ -203,6 +220,7 @@ func runPipeChild(in pipeIn, x *exec) (inconclusive string) {
 	rigN := 0
 	rig := newPipeRig(c, rigN)
 	defer func() { rig.p.Stop() }()
+	bp := &boundPass{x: x, c: c, dec: dec, droot: droot}
 	lineEnd := "\n"
 	if c.decName == "protobuf" {
 		lineEnd = ""
@@ -365,6 +383,11 @@ func runPipeChild(in pipeIn, x *exec) (inconclusive string) {
 					return inconclusive
 				}
 			}
+		}
+		// size-gate boundary matrix over a reader buffer (bound.go); own PRNG
+		// stream, so the cases above do not depend on it
+		if inc := bp.run(f, newRng(mix(in.Seed, hashStr("pipe-bound"), uint64(in.Cfg), uint64(i)))); inc != "" {
+			return inc
 		}
 	}
 	if !rig.waitIdle() {
